@@ -18,14 +18,16 @@
    and link exactly when left-to-right archive resolution (Level A) says so; every line is one
    driver call, judged on the ld line printed by -###, link success and program output.
 """
-import json, os, re, shutil
+import json, math, os, re, shutil
 import vt
 from vt import Infra
 
 IGNORE = {"_GLOBAL_OFFSET_TABLE_", "__tls_get_addr"}
-CTYPE = {"int": ("int", ""), "long": ("long", ""), "char3": ("char", "[3]"), "char20": ("char", "[20]")}
-CINIT = {"int": "41", "long": "41", "char3": "{41, 1, 2}", "char20": "{41, 1, 2}"}
-SIZE = {"int": 4, "long": 8, "char3": 3, "char20": 20}
+CTYPE = {"int": ("int", ""), "long": ("long", ""), "char3": ("char", "[3]"), "char20": ("char", "[20]"), "int5": ("int", "[5]")}
+CINIT = {"int": "41", "long": "41", "char3": "{41, 1, 2}", "char20": "{41, 1, 2}", "int5": "{41, 1, 2}"}
+# initializers that complete an array of unknown bound (`T x[] = ...`, C11 6.7.9p22) to exactly the size of the type
+CINIT_UB = {"char20": '")bcdefghijklmnopqrs"', "int5": "{41, 1, 2, 3, 4}"}
+SIZE = {"int": 4, "long": 8, "char3": 3, "char20": 20, "int5": 20}
 
 
 # ------------------------------------------------------------------ rendering
@@ -35,15 +37,32 @@ def kconst(name):
 
 def render_unit(c):
     """C text of one unit (a state of Linkage.tla) + the helper symbols it defines."""
-    base, arr = CTYPE[c["ty"]]
+    base, arr0 = CTYPE[c["ty"]]
     tl = "_Thread_local " if c["tls"] else ""
+    al = "_Alignas(%d) " % c["aln"] if c.get("aln") else ""     # on every defining declaration (6.7.5)
     out, helpers = [], {}
     for i, e in enumerate(c["es"], 1):
         if e["k"] == "obj":
             ev = e["ev"]
-            decl = "%s%s x%s" % (tl, base, arr)
-            init = " = " + CINIT[c["ty"]]
-            if ev == "T":
+            ub = bool(e.get("ub"))                                # the declarator omits the array bound
+            arr = "[]" if ub else arr0
+            decl = "%s%s%s x%s" % (tl, "" if ev in ("E", "BE") else al, base, arr)
+            init = " = " + (CINIT_UB if ub else CINIT)[c["ty"]]
+            if ev == "F":
+                # a function whose body nests blocks; level j declares x as blk[j]; x is referred to at level `at`
+                blk, at = e["blk"], e["at"]
+                plain = "%s x%s" % (base, arr0)
+
+                def dcl(b):
+                    # (a block-scope static is also referred to in its own block: an unreferenced one leaves no trace)
+                    return {"A": "%s = %s;" % (plain, CINIT[c["ty"]]), "P": "", "BS": "static %s%s; k ^= (unsigned long)&x;" % (tl, plain),
+                            "BSD": "static %s%s = %s; k ^= (unsigned long)&x;" % (tl, plain, CINIT[c["ty"]]),
+                            "BE": "extern %s%s;" % (tl, plain)}[b]
+                ref = "r = (unsigned long)&x;"
+                out.append("unsigned long n%d(%s) { unsigned long r = 0, k = 0; %s { %s %s } %s return r + (k & 1); }" % (
+                    i, plain if blk[0] == "P" else "void", dcl(blk[0]), dcl(blk[1]), ref if at == 2 else "", ref if at == 1 else ""))
+                helpers["n%d" % i] = "fn"
+            elif ev == "T":
                 out.append(decl + ";")
             elif ev == "D":
                 out.append(decl + init + ";")
@@ -78,6 +97,10 @@ def render_unit(c):
                         st.append("v += (int)(sizeof(char[d + 2][%s(d - 1) + 1]) / (d + 2)) - 1;" % r)
                     elif kind == "vlabound":
                         st.append("{ char a[%s(d - 1) + 1]; v += (int)sizeof a - 1; }" % r)
+                    elif kind == "blkcall":      # through a block-scope declaration of the callee
+                        st.append("{ int %s(int); v += %s(d - 1); }" % (r, r))
+                    elif kind == "hidcall":      # ... behind an automatic object of the same name
+                        st.append("{ int %s = d; { int %s(int); v += %s(d - 1); } v += %s - d; }" % (r, r, r, r))
                     else:
                         st.append("v += %s(d - 1);" % r if j % 2 == 0 else "v += (*&%s)(d - 1);" % r)
                 for j, r in enumerate(sorted(e.get("urefs", []))):  # operands that are not evaluated (6.9p3: not a use)
@@ -104,18 +127,21 @@ def sect_kind(s):
 
 
 def parse_readelf(txt):
-    """{file: {name: [rows]}} from `readelf -SW -sW f1.o f2.o ...`; row = (bind, type, kind, size, value)."""
-    files, cur, secs, syms = {}, None, {}, None
+    """{file: {name: [rows]}} from `readelf -SW -sW f1.o f2.o ...`; row = (bind, type, kind, size, value, sh_addralign
+    of the symbol's section or 0)."""
+    files, cur, secs, secal, syms = {}, None, {}, {}, None
     for l in txt.splitlines():
         m = re.match(r"^File: (.*)$", l)
         if m:
             cur = m.group(1).strip()
-            secs, syms = {}, {}
+            secs, secal, syms = {}, {}, {}
             files[cur] = syms
             continue
         m = re.match(r"^\s*\[\s*(\d+)\]\s+(\S+)\s+(\S+)", l)
         if m and syms is not None:
             secs[m.group(1)] = m.group(2)
+            last = l.split()[-1]
+            secal[m.group(1)] = int(last) if last.isdigit() else 0
             continue
         f = l.split()
         if syms is not None and len(f) >= 8 and f[0].endswith(":") and f[0][:-1].isdigit() and f[3] not in ("SECTION", "FILE"):
@@ -123,7 +149,7 @@ def parse_readelf(txt):
                 size = int(f[2], 0)
             except ValueError:
                 continue
-            syms.setdefault(f[7], []).append((f[4], f[3], sect_kind(secs.get(f[6], f[6])), size, int(f[1], 16)))
+            syms.setdefault(f[7], []).append((f[4], f[3], sect_kind(secs.get(f[6], f[6])), size, int(f[1], 16), secal.get(f[6], 0)))
     return files
 
 
@@ -195,6 +221,12 @@ def is_anon(name):
     return "." in name          # compiler-generated (chibicc .L..N, gcc x.0 / f.localalias): not a C identifier
 
 
+def galign(r):
+    """The alignment an object file guarantees for a defined symbol: its section is placed at a multiple of
+    sh_addralign, the symbol st_value bytes into it (for a common symbol st_value IS the alignment)."""
+    return r[4] if r[2] == "common" else math.gcd(r[4], r[5]) if r[5] else r[4]
+
+
 def check_row(name, exp, rows):
     """exp: Level A row; rows: readelf rows of that name.  Returns None or (class, text)."""
     st = exp["st"]
@@ -226,8 +258,8 @@ def check_row(name, exp, rows):
     if exp["type"] != "FUNC":
         if r[3] != exp["size"]:
             return "size-in-%s" % exp["sect"], "expected size %d, found %s" % (exp["size"], r)
-        if (exp["sect"] == "common" and r[4] != exp["align"]) or (exp["sect"] != "common" and r[4] % exp["align"]):
-            return "alignment", "expected alignment %d, found %s" % (exp["align"], r)
+        if (exp["sect"] == "common" and r[4] != exp["align"]) or (exp["sect"] != "common" and galign(r) % exp["align"]):
+            return "alignment", "expected alignment %d, found %s (guaranteed: %d)" % (exp["align"], r, galign(r))
     return None
 
 
@@ -235,15 +267,19 @@ def judge_unit(c, helpers, tab, cfgname):
     """All discrepancies between a symbol table and Level A: [(class, text)]."""
     bad = []
     if isinstance(tab, tuple):
+        if "not a function" in tab[1] and any(e.get("ev") == "hidcall" for e in c["es"]):
+            return [("rejected:block-scope-function-declaration-behind-object", tab[1])]
         return [("rejected", tab[1])]
     exp = {}
     if c["mode"] == "obj":
         exp["x"] = c["objrow"]
-    known = set()
+    known, blkdecl = set(), set()
     for fr in c["fnrows"]:
         exp[fr["name"]] = fr["row"]
         if fr["known"]:
             known.add(fr["name"])
+        if fr.get("blk"):
+            blkdecl.add(fr["name"])
     for h, kind in helpers.items():
         if h not in exp:
             exp[h] = dict(st="def", bind="GLOBAL", type="FUNC", sect="text", size=0, align=1) if kind == "fn" else \
@@ -253,8 +289,12 @@ def judge_unit(c, helpers, tab, cfgname):
         b = check_row(name, e, rows)
         if b:
             kind = "object" if name == "x" else "helper" if name in helpers else "function"
+            if name == "x" and c.get("objcls"):       # Linkage.tla KnownUnboundTentative
+                kind = "object:" + c["objcls"]
             if name in known:       # D33: Linkage.tla KnownInlineExt
                 kind = "function:inline-definition-made-external-by-another-declaration"
+            elif name in blkdecl:   # Linkage.tla BlockDeclared
+                kind = "function:declared-in-block-scope"
             bad.append(("%s:%s" % (kind, b[0]), "%s: %s" % (name, b[1])))
     anon = []
     for name, rows in tab.items():
@@ -281,11 +321,16 @@ def judge_unit(c, helpers, tab, cfgname):
             bad.append(("anon:section", "static locals: expected %s, found %s" % (want, got)))
         elif got != want:
             bad.append(("anon:size", "static locals: expected %s, found %s" % (want, got)))
+        else:               # all static locals of a unit have the unit's type: one demanded alignment
+            for r in anon:
+                if r[2] in ("data", "bss", "tdata", "tbss") and r[1] in ("OBJECT", "TLS", "NOTYPE") and galign(r) % c["anon"][0].get("align", 1):
+                    bad.append(("anon:alignas:alignment" if c.get("aln") else "anon:alignment", "static local: expected alignment %d, found %s (guaranteed: %d)" % (
+                        c["anon"][0]["align"], r, galign(r))))
     return bad
 
 
 def unit_key(c):
-    return json.dumps([c["mode"], c["fcommon"], c["ty"], c["tls"], c["es"]], sort_keys=True)
+    return json.dumps([c["mode"], c["fcommon"], c["ty"], c["tls"], c.get("aln", 0), c["es"]], sort_keys=True)
 
 
 def replay_units(ctx, tree, cases, tag, pic_every=3, force_cfg=None):
@@ -321,7 +366,7 @@ def replay_units(ctx, tree, cases, tag, pic_every=3, force_cfg=None):
             gb = judge_unit(c, c["_helpers"], gt.get(uid, ("fail", "no result")), cf)
             gcls = set(x[0] for x in gb)
             for cls, msg in b:
-                if cls in gcls or any(x[0] == "rejected" for x in gb):
+                if cls in gcls or any(x[0].startswith("rejected") for x in gb):
                     ctx.oracle_disagreements += 1       # the reference compiler disagrees with the spec too
                     continue
                 ctx.report("unit:%s" % cls,
@@ -355,8 +400,13 @@ def render_link_unit(ci, u, k, hval):
               "si": "static inline int %s%s" % (h, body), "eidef": "extern inline int %s%s" % (h, body),
               "idef": "inline int %s%s" % (h, body)}[k["h"]])
     A = "%su%d_" % (P, u)
-    o += ["int %sgval(void) { return %s; }" % (A, g), "int *%sgaddr(void) { return &%s; }" % (A, g),
-          "void %sgset(int v) { %s = v; }" % (A, g), "int %stinc(void) { return ++%s; }" % (A, t),
+    # the scope through which the accessors name g (Link2.tla, field ga): the file-scope declaration, a block-scope
+    # extern, or a block-scope extern behind an automatic / block-scope static object of the same name
+    pre, post = {"file": ("", ""), "be": ("extern int %s; " % g, ""),
+                 "hid": ("int %s = 5; { extern int %s; " % (g, g), " }"),
+                 "hids": ("static int %s = 5; { extern int %s; " % (g, g), " }")}[k.get("ga", "file")]
+    o += ["int %sgval(void) { %sreturn %s;%s }" % (A, pre, g, post), "int *%sgaddr(void) { %sreturn &%s;%s }" % (A, pre, g, post),
+          "void %sgset(int v) { %s%s = v;%s }" % (A, pre, g, post), "int %stinc(void) { return ++%s; }" % (A, t),
           "int *%staddr(void) { return &%s; }" % (A, t), "int %sh(void) { return %s(); }" % (A, h),
           "int (*%shp)(void) = %s;" % (A, h),
           "int %scnt(void) { static int n%s; return ++n; }" % (A, " = 5" if u == 2 else ""),
@@ -433,7 +483,10 @@ def link_batch(tree, compiler, cfg, batch, wd):
 
 def link_sig(c, what):
     k1, k2 = c["u1"], c["u2"]
-    fam = "g" if (k1["g"], k2["g"]) != ("D", "E") else "t" if (k1["t"], k2["t"]) != ("E", "D") else "h"
+    scoped = k1.get("ga", "file") != "file" or k2.get("ga", "file") != "file"
+    fam = "g" if (k1["g"], k2["g"]) != ("D", "E") or scoped else "t" if (k1["t"], k2["t"]) != ("E", "D") else "h"
+    if scoped:
+        return "link:%s:g:%s@%s+%s@%s:%s" % (c["cfg"], k1["g"], k1.get("ga", "file"), k2["g"], k2.get("ga", "file"), what)
     return "link:%s:%s:%s+%s:%s" % (c["cfg"], fam, k1[fam], k2[fam], what)
 
 
@@ -699,6 +752,11 @@ def run(ctx):
     ctx.phase("build")
     allcases = []
     plan = [("obj", dict(Mode=q("obj"), MaxLen=3 if quick else 4, N=0), None),
+            # how the type of x gets complete: declarators without the array bound (composite type, completion by the
+            # initializer, one-element rule), _Alignas on the defining declarations
+            ("objty", dict(Mode=q("obj"), MaxLen=3, N=0, Unb=True), None),
+            # scopes: a function with nested blocks that declare x without linkage / as a block-scope extern
+            ("scope", dict(Mode=q("scope"), N=0), None),
             ("fn", dict(Mode=q("fn"), MaxLen=3 if quick else 4, N=0), None),
             ("graph2", dict(Mode=q("graph"), N=2, SelfLoops=True), None),
             # 2 functions, every way of writing the references (call/address, sizeof of a VLA type name, VLA bound)
@@ -720,7 +778,15 @@ def run(ctx):
     controls = (("obj", dict(Mode=q("obj"), N=0, Fixed=False)), ("fn", dict(Mode=q("fn"), N=0, Fixed=False)),
                 ("graph2", dict(Mode=q("graph"), N=2, Fixed=False)),
                 ("graph2-D23-alone", dict(Mode=q("graph"), N=2, ResetCurFn=False)),
-                ("fn-sizeof-operands-not-booked", dict(Mode=q("fn"), N=0, SkipSizeof=True)))
+                ("fn-sizeof-operands-not-booked", dict(Mode=q("fn"), N=0, SkipSizeof=True)),
+                # HEAD before the fifth-round repairs (no composite array type, _Alignas ignored on block-scope statics)
+                ("objty-before-fifth-round-repairs", dict(Mode=q("obj"), N=0, Unb=True, Fixed5=False)),
+                # ... a block-scope declaration `int f(int);` turns an inline definition into an external one
+                ("fn-before-fifth-round-repairs", dict(Mode=q("fn"), N=0, Fixed5=False)),
+                # seeded C15-9: the psABI array rule applied when the Obj is created (before the initializer completes the type)
+                ("objty-array-rule-at-creation", dict(Mode=q("obj"), N=0, Unb=True, AlignAtCreation=True)),
+                # seeded C15-8: a block-scope extern binds to whatever declaration of the name is visible
+                ("scope-extern-reuses-visible", dict(Mode=q("scope"), N=0, ReuseVisible=True)))
     for tag, consts in controls:
         pool.submit("ctl-" + tag, "Linkage", ctx.cfg("link", "Linkage_mc.cfg", **consts), count=False, workers=1)
     pool.submit("Link2", "Link2", ctx.cfg("link", "Link2.cfg", Emit=True), env=dict(OUT=os.path.join(ctx.scratch, "links.ndjson")), workers=2)
@@ -749,9 +815,9 @@ def run(ctx):
             raise Infra("Linkage generator (%s) wrote only %d units" % (tag, len(cases)))
         ctx.phase("tlc " + tag)
         if quick:
-            stride = dict(obj=3, fn=2, graph2=2, graph2k=6, graph3=16, graph4=4).get(tag, 1)
-        else:            # thorough: TLC still checks every state; the two largest families are replayed in part
-            stride = dict(obj=2, fn=2, graph3=6).get(tag, 1)
+            stride = dict(obj=3, objty=16, scope=8, fn=2, graph2=2, graph2k=6, graph3=16, graph4=4).get(tag, 1)
+        else:            # thorough: TLC still checks every state; the largest families are replayed in part
+            stride = dict(obj=2, objty=3, fn=2, graph3=6).get(tag, 1)
         if os.environ.get("VERIF_C15_ORACLE") == "units":
             validate_oracle(ctx, tree, cases, tag)
         if os.environ.get("VERIF_C15_ALL"):      # development aid: replay the whole generated domain of this tier
